@@ -50,6 +50,7 @@ func runReuseCase(prop, tier string, seed int64, k, idx int) proto.Rec {
 	fresh1 := 2 + rng.Intn(3)     // messages sent and acknowledged first
 	tail := 10 + rng.Intn(10)     // submissions of the second phase
 	reuseEvery := 1 + rng.Intn(2) // every n-th submission of the second phase re-uses a returned object
+	steer := rng.Intn(3) != 0     // two cases in three hold the partition worker until the first re-used object was sent
 
 	sim := sarama.VNewSim(simSocketDir(), 1)
 	defer sim.Close()
@@ -85,6 +86,15 @@ func runReuseCase(prop, tier string, seed int64, k, idx int) proto.Rec {
 		conf.Producer.Flush.Messages = flush
 		conf.Producer.Flush.Frequency = 2 * time.Millisecond
 	}
+	// steering: the partition worker is held where it enters the retrying state until the application has
+	// sent again an object it got back, so that this submission is parked behind the retried messages
+	sink := newSink()
+	defer sink.retire()
+	var hwmParked, reusedSent, submitDone int32
+	sink.addRule(&steerRule{Name: "newhwm-reuse", Point: "pp.newhwm", Nth: 1,
+		OnPark:  func(ev *hookEv) { atomic.StoreInt32(&hwmParked, 1) },
+		Until:   func() bool { return atomic.LoadInt32(&reusedSent) == 1 || atomic.LoadInt32(&submitDone) == 1 },
+		MaxPark: 300 * time.Millisecond})
 	p, err := sarama.NewAsyncProducer(sim.Addrs(), conf)
 	if err != nil {
 		rec.Verdict, rec.Why = "inconclusive", "producer not created: "+err.Error()
@@ -161,6 +171,15 @@ func runReuseCase(prop, tier string, seed int64, k, idx int) proto.Rec {
 		var m *sarama.ProducerMessage
 		// objects handed back earlier are sent again once a batch has been refused: that is when the
 		// partition is retrying and fresh input is parked behind the retried messages
+		if atomic.LoadInt32(&refused) == 1 && !reusedOnce && steer {
+			// wait (bounded) for the partition worker to enter the retrying state
+			for w := 0; w < 500 && atomic.LoadInt32(&hwmParked) == 0; w++ {
+				if w%50 == 49 {
+					submit(&sarama.ProducerMessage{}) // something has to follow the refused batch for the worker to notice
+				}
+				time.Sleep(100 * time.Microsecond)
+			}
+		}
 		if atomic.LoadInt32(&refused) == 1 && (!reusedOnce || i%reuseEvery == 0) {
 			// the first submission after the refusal is a re-used object, the most recently returned one
 			// (its old sequence number is still among the batches the cluster remembers)
@@ -173,14 +192,19 @@ func runReuseCase(prop, tier string, seed int64, k, idx int) proto.Rec {
 			}
 			mu.Unlock()
 		}
+		first := m != nil && reused == 1
 		if m == nil {
 			m = &sarama.ProducerMessage{}
 		}
 		submit(m)
+		if first {
+			atomic.StoreInt32(&reusedSent, 1)
+		}
 		if pauseUs > 0 {
 			time.Sleep(time.Duration(pauseUs) * time.Microsecond)
 		}
 	}
+	atomic.StoreInt32(&submitDone, 1)
 	total := nextID
 	complete := waitFor(int64(total))
 	closed := make(chan struct{})
@@ -199,6 +223,9 @@ func runReuseCase(prop, tier string, seed int64, k, idx int) proto.Rec {
 	}
 	rec.Obs["submissions"], rec.Obs["resubmitted_objects"], rec.Obs["records_in_log"] = int64(total), int64(reused), int64(len(lg))
 	rec.Obs["produce_batches"] = int64(atomic.LoadInt32(&nBatch))
+	if atomic.LoadInt32(&hwmParked) == 1 && reused > 0 {
+		rec.Obs["resubmitted_while_the_partition_was_retrying"]++
+	}
 	add := func(kind, attr, msg string) {
 		for _, v := range rec.Viols {
 			if v.Kind == kind && v.Attr == attr {
